@@ -284,6 +284,14 @@ func gateScenarios(t *testing.T, h *H) {
 			gateScenario(t, h, sched, tr)
 		}
 	}
+	// one goroutine that keeps emitting across the moment the CONNECT reply arrives (no forced schedule: several tries)
+	tries := 6
+	if h.Thorough() {
+		tries = 60
+	}
+	for i := 0; i < tries; i++ {
+		gateContinuous(t, h, []string{"polling", "websocket"}[i%2], i)
+	}
 }
 
 func gateScenario(t *testing.T, h *H, sched, tr string) {
@@ -364,4 +372,50 @@ func gateScenario(t *testing.T, h *H, sched, tr string) {
 		h.Violation("C02", "events of one goroutine arrive on the wire in an order different from the emission order", desc, "stream received by the server: "+why)
 	}
 	h.Case(ordLine(toks), impl)
+}
+
+func gateContinuous(t *testing.T, h *H, tr string, idx int) {
+	progress("gate continuous %s %d", tr, idx)
+	srvTap := newWireTap()
+	total := 4000
+	synctest.Test(t, func(t *testing.T) {
+		r := newRig(&sio.ServerConfig{ParserCreator: srvTap.creator()})
+		r.server.OnConnection(func(s sio.ServerSocket) {})
+		m := r.manager([]string{tr}, &sio.ManagerConfig{NoReconnection: true})
+		s := m.Socket("/", nil)
+		none := []sio.Binary{}
+		done := make(chan struct{})
+		go func() {
+			defer close(done)
+			for q := 0; q < total; q++ {
+				if q == 300+idx*50 {
+					s.Connect()
+				}
+				s.Emit("o", fmt.Sprintf("1:%d", q), none)
+			}
+		}()
+		<-done
+		time.Sleep(20 * time.Second)
+		r.shutdown(m)
+	})
+	desc := fmt.Sprintf("send gate: one goroutine emits %d events without pausing and connects after %d of them, transport=%s", total, 300+idx*50, tr)
+	h.NonTrivial(desc)
+	h.Dist("order.gate.continuous")
+	srvTap.mu.Lock()
+	frames := append([]tapFrame(nil), srvTap.frames...)
+	srvTap.mu.Unlock()
+	toks := ordTokens(frames)
+	n := 0
+	for _, f := range toks {
+		if f.e != 0 {
+			n++
+		}
+	}
+	h.Eval()
+	ok, why := ordCheck(toks)
+	if n != total {
+		h.Violation("C02", "an event emitted while the socket connects is never sent", desc, fmt.Sprintf("the server received %d of the %d events", n, total))
+	} else if !ok {
+		h.Violation("C02", "events of one goroutine arrive on the wire in an order different from the emission order", desc, "stream received by the server: "+why)
+	}
 }
